@@ -16,6 +16,11 @@ package contractcourt
 // ArbitratorLog) through its own goroutine: ProcessBlock, forceCloseReqs, the
 // ChainEvents channels.  Every event is followed by a barrier, nothing sleeps.
 //
+// HTLC indices come from the schedule ("idx"): offered and received HTLCs are
+// numbered independently, so an offered and a received HTLC may share an index
+// (as in a real channel, where both counters start at 0); observations are
+// attributed by (direction, index).
+//
 // Recorded, never judged: one line per environment event, one "Step" line per
 // state committed to the log (CommitState), one "End" line when the event has
 // been processed; each carries the cumulative number of upstream fail-backs
@@ -57,6 +62,10 @@ const c12H0 = 100
 
 type c12Htlc struct {
 	Dir string `json:"dir"` // none | out | in
+	// Idx is the HtlcIndex. Offered and received HTLCs are numbered by
+	// independent counters: an offered and a received HTLC may carry the
+	// same index, two HTLCs of one direction never do.
+	Idx int `json:"idx"`
 	Fwd int    `json:"fwd"`
 	Pre int    `json:"pre"`
 	Rel int    `json:"rel"`
@@ -108,10 +117,22 @@ type c12Rec struct {
 	notified int
 	other    int
 	lines    []string
+	outSlot  map[uint64]int // HtlcIndex of an offered HTLC -> slot (0-based)
+	inSlot   map[uint64]int // HtlcIndex of a received HTLC -> slot (0-based)
 }
 
-func c12NewRec(nh int) *c12Rec {
-	r := &c12Rec{nh: nh, state: "Default", height: c12H0}
+func c12NewRec(s *c12Sched) *c12Rec {
+	nh := len(s.Htlc)
+	r := &c12Rec{nh: nh, state: "Default", height: c12H0,
+		outSlot: make(map[uint64]int), inSlot: make(map[uint64]int)}
+	for i, h := range s.Htlc {
+		switch h.Dir {
+		case "out":
+			r.outSlot[uint64(h.Idx)] = i
+		case "in":
+			r.inSlot[uint64(h.Idx)] = i
+		}
+	}
 	r.fails = make([]int, nh)
 	r.settles = make([]int, nh)
 	r.closed = make([]int, nh)
@@ -123,12 +144,17 @@ func c12NewRec(nh int) *c12Rec {
 	return r
 }
 
-func c12Slot(idx uint64, nh int) int {
-	s := int(idx) - 10
-	if s < 1 || s > nh {
-		return -1
+// slot of an HTLC index as the arbitrator reports it: upstream resolution
+// messages name offered HTLCs, final outcomes name received HTLCs.
+func (r *c12Rec) slotOf(incoming bool, idx uint64) int {
+	m := r.outSlot
+	if incoming {
+		m = r.inSlot
 	}
-	return s - 1
+	if s, ok := m[idx]; ok {
+		return s
+	}
+	return -1
 }
 
 // emitLocked appends one trace line (a snapshot of the cumulative observations).
@@ -188,24 +214,24 @@ func (l *c12Log) InsertUnresolvedContracts(reports []*channeldb.ResolverReport,
 		for _, res := range resolvers {
 			var (
 				kind string
-				idx  uint64
+				htlc channeldb.HTLC
 			)
 			switch r := res.(type) {
 			case *htlcOutgoingContestResolver:
-				kind, idx = "ocontest", r.htlc.HtlcIndex
+				kind, htlc = "ocontest", r.htlc
 			case *htlcTimeoutResolver:
-				kind, idx = "timeout", r.htlc.HtlcIndex
+				kind, htlc = "timeout", r.htlc
 			case *htlcIncomingContestResolver:
-				kind, idx = "icontest", r.htlc.HtlcIndex
+				kind, htlc = "icontest", r.htlc
 			case *htlcSuccessResolver:
-				kind, idx = "success", r.htlc.HtlcIndex
+				kind, htlc = "success", r.htlc
 			case *breachResolver:
 				continue
 			default:
 				l.rec.other++
 				continue
 			}
-			s := c12Slot(idx, l.rec.nh)
+			s := l.rec.slotOf(htlc.Incoming, htlc.HtlcIndex)
 			if s < 0 {
 				l.rec.other++
 				continue
@@ -281,7 +307,7 @@ func c12Set(s *c12Sched, k string) []channeldb.HTLC {
 		x := channeldb.HTLC{
 			Incoming:      h.Dir == "in",
 			Amt:           lnwire.MilliSatoshi(10000 * slot),
-			HtlcIndex:     uint64(10 + slot),
+			HtlcIndex:     uint64(h.Idx),
 			RefundTimeout: c12Expiry(s, h),
 			RHash:         c12Hash(slot),
 			OutputIndex:   int32(slot),
@@ -351,8 +377,7 @@ func c12Resolutions(s *c12Sched, k string, commitHash chainhash.Hash) *lnwallet.
 
 // c12Run executes one schedule once and returns the observation lines.
 func c12Run(t *testing.T, db kvdb.Backend, s *c12Sched, runNo int) ([]string, error) {
-	nh := len(s.Htlc)
-	rec := c12NewRec(nh)
+	rec := c12NewRec(s)
 
 	placeholder := &mockArbitratorLog{state: StateDefault, newStates: make(chan ArbitratorState, 100)}
 	ctx, err := createTestChannelArbitrator(t, placeholder)
@@ -372,7 +397,9 @@ func c12Run(t *testing.T, db kvdb.Backend, s *c12Sched, runNo int) ([]string, er
 			p := c12Preimage(i + 1)
 			beacon.lookupPreimage[p.Hash()] = p
 		}
-		fwd[uint64(10+i+1)] = h.Fwd == 1
+		if h.Dir == "out" {
+			fwd[uint64(h.Idx)] = h.Fwd == 1
+		}
 	}
 	t0 := time.Date(2026, time.January, 1, 0, 0, 0, 0, time.UTC)
 	clk := clock.NewTestClock(t0)
@@ -389,7 +416,7 @@ func c12Run(t *testing.T, db kvdb.Backend, s *c12Sched, runNo int) ([]string, er
 		rec.mu.Lock()
 		defer rec.mu.Unlock()
 		for _, m := range msgs {
-			sl := c12Slot(m.HtlcIndex, nh)
+			sl := rec.slotOf(false, m.HtlcIndex)
 			switch {
 			case sl < 0:
 				rec.other++
@@ -404,7 +431,7 @@ func c12Run(t *testing.T, db kvdb.Backend, s *c12Sched, runNo int) ([]string, er
 	cfg.PutFinalHtlcOutcome = func(_ lnwire.ShortChannelID, id uint64, settled bool) error {
 		rec.mu.Lock()
 		defer rec.mu.Unlock()
-		sl := c12Slot(id, nh)
+		sl := rec.slotOf(true, id)
 		switch {
 		case sl < 0:
 			rec.other++
